@@ -474,6 +474,8 @@ def bounded(rep, tier):
 
 
 def check(rep, tier):
+    from vlib import statecensus
+    statecensus.obligations(rep, 'C05', 'parser')
     rep.dropped = ('tables regenerated by importing the real parser classes; function bodies read with ast.parse: decorators other than @_, '
                    'docstrings, comments and type hints dropped; Lexer.tokenize (a generator) is abstracted as an opaque iterator')
     rep.assume('T2 (LR soundness, textbook): a run of valid LR(0) shift/reduce moves from the initial configuration that ends in accept derives '
